@@ -120,6 +120,13 @@ class SysHooks:
             val = ("dispatch", f.attr, recv, tuple(args))
             st.events.append(("dispatch", f.attr, recv, tuple(args), node.lineno))
             return Sym(("dispatch", f.attr, vkey(recv), tuple(vkey(a) for a in args)))
+        # the same through a local alias of the payload: comp = self._g[n]; comp.method(...)
+        if isinstance(f, ast.Attribute) and isinstance(f.value, ast.Name) and f.value.id != "self":
+            base = st.env.get(f.value.id)
+            if isinstance(base, Sym) and base.key[0] == "sub" and base.key[1] == Sym(("attr", Sym(("name", "self")), "_g")):
+                recv = base.key[2]
+                st.events.append(("dispatch", f.attr, recv, tuple(args), node.lineno))
+                return Sym(("dispatch", f.attr, vkey(recv), tuple(vkey(a) for a in args)))
         if fname == "DISPATCH":
             st.events.append(("dispatch", args[0], args[1], tuple(args[2:]), node.lineno))
             return Sym(("dispatch", args[0], vkey(args[1]), tuple(vkey(a) for a in args[2:])))
